@@ -333,6 +333,7 @@ func rulesC18(c *Ctx) {
 	}
 	c.Check(stored, "C18.window", "SetTimeRange: result stored", set.Pos(), "s.Condition must receive Reduce(<parsed condition>)")
 	writebackRule(c, "C18.writeback", "Rewrite", "RewriteExpr")
+	copyLiteralRule(c, "C18.copylit", func(name string) bool { return strings.HasPrefix(name, "reduce") || name == "Reduce" })
 	// Reduce's boolean short-cuts decide whether the stripped `true` placeholders disappear
 	shortcutsC09(c, tt, "C18.reduce")
 }
